@@ -1456,7 +1456,9 @@ def merge_nested_comprehensions(source: str) -> str:
 
                 tf = RenameTransformer(target_name_inner, comprehension.target.id)
 
-                new_generators.extend(tf.visit(comprehension.iter).generators)
+                # The transformer modifies the nodes it visits, and these belong to the cached
+                # ast of the source.
+                new_generators.extend(tf.visit(copy.deepcopy(comprehension.iter)).generators)
 
             else:
                 new_generators.append(comprehension)
